@@ -31,7 +31,16 @@ print(json.dumps(out))
 
 
 def hist_cases(ncalls, depth, tag="history"):
+    """depth 2: one case per unordered pair {i, j}; the case runs (i, j) and (j, i) in two fresh interpreters and
+    compares the second result of each with the FIRST result of the other (a call made first in a fresh interpreter
+    is its own baseline) - every ordered pair is covered without separate baseline runs.
+    depth 3: all ordered triples, baselines cached per worker process."""
     out = []
+    if depth == 2:
+        for i in range(ncalls):
+            for j in range(i + 1, ncalls):
+                out.append({"kind": tag, "seq": [i, j], "sym": 1})
+        return out
     for seq in itertools.product(range(ncalls), repeat=depth):
         if len(set(seq)) == 1:
             continue
@@ -55,8 +64,46 @@ def _run(prelude, seq):
 _BASE = {}
 
 
-def run_history(key, prelude, labels, seq, tol):
+def _differs(got, base, t):
+    if len(got) != len(base):
+        return {"length": [len(got), len(base)]}
+    if t == 0.0:
+        if got != base:
+            return {"max_abs_difference": max(abs(float.fromhex(a) - float.fromhex(b)) for a, b in zip(got, base)),
+                    "bitwise": True}
+        return None
+    a = [float.fromhex(v) for v in got]
+    b = [float.fromhex(v) for v in base]
+    sc = max([1.0] + [abs(v) for v in b])
+    d = max([abs(x - y) for x, y in zip(a, b)] + [0.0])
+    if not d <= t * sc:
+        return {"max_abs_difference": d, "tol": t * sc}
+    return None
+
+
+def run_pair(key, prelude, labels, i, j, tol):
+    """both orders of the pair {i, j}, each in a fresh interpreter"""
+    rij, e1 = _run(prelude, [i, j])
+    rji, e2 = _run(prelude, [j, i])
+    viol = []
+    for err, seq in ((e1, (i, j)), (e2, (j, i))):
+        if err is not None:
+            viol.append(V("history:exception-in-fresh-interpreter", {"error": err, "sequence": [labels[k] for k in seq]}))
+    if not viol:
+        for (seqres, base, second, first) in ((rij, rji, j, i), (rji, rij, i, j)):
+            bad = _differs(seqres[1], base[0], tol[second])
+            if bad is not None:
+                bad.update({"sequence": [labels[first], labels[second]], "position": 1, "call": labels[second],
+                            "baseline": "the same call made first in a fresh interpreter"})
+                viol.append(V("history:result-depends-on-earlier-calls", bad, position=1))
+    return {"viol": viol, "obs": {"pair": [i, j]}, "status": "violation" if viol else "ok", "n": 2, "states": 4,
+            "transitions": 4}
+
+
+def run_history(key, prelude, labels, seq, tol, sym=False):
     """key: cache key of the property; labels[i]: human readable description of call i; tol[i] relative tolerance"""
+    if sym and len(seq) == 2:
+        return run_pair(key, prelude, labels, seq[0], seq[1], tol)
     res, err = _run(prelude, seq)
     named = [labels[i] for i in seq]
     if err is not None:
